@@ -14,6 +14,7 @@ samples it retains, so "a quantile lies within the sketch's relative error of a 
 import MetricsVerif.Proofs.Histogram
 import MetricsVerif.Proofs.DistBuilder
 import MetricsVerif.Proofs.Rolling
+import MetricsVerif.Generated.SourceFacts
 
 namespace MetricsVerif.C15
 open MetricsVerif.Histogram MetricsVerif.Rolling MetricsVerif.Prom MetricsVerif.PromFmt MetricsVerif.DistBuilder
@@ -444,6 +445,195 @@ theorem quantile_ends_in_window_fixed (r : Rolling FV) (now : Nat)
     simp only [renderQ0, renderQ1, hne0, Bool.false_eq_true, if_false]
     exact g4 hpos
 
+/-! ### every quantile strictly between 0 and 1: the sketch answers with the bin of a sample of the window -/
+
+/-- **quantile_in_window**: for ANY rolling summary, time and configured quantile `num/den ≤ 1`, the value
+    printed for that quantile is
+    * the `0` placeholder exactly when the window is empty (`Ok(None)` → `unwrap_or(0.0)`);
+    * `0.0` only if a sample of the window is in the sketch's zero class (`|v| ≤ min_possible`, or NaN);
+    * otherwise `±value(key)` of the bin of a sample `v` that IS in the window (`v ∈ snapshot now`) — so it lies, up to
+      the bin's relative error, between the smallest and the largest sample of the window, and by `window_sound` no
+      sample older than the window can be that `v`.
+    (`value(key v)` within alpha·|v| of `v` is the floating-point part of `sketches-ddsketch`; the harness checks it on
+    every snapshot at the documented alpha = 1e-4.) -/
+theorem quantile_in_window (minU : Nat) (r : Rolling FV) (now num den : Nat) (hnum : num ≤ den) :
+    (snapshotQuantile minU r now num den = .none ↔ r.snapshot now = [])
+    ∧ (snapshotQuantile minU r now num den = .zero → ∃ v ∈ r.snapshot now, clsOf minU v = .zero)
+    ∧ (∀ v, snapshotQuantile minU r now num den = .bin v → v ∈ r.snapshot now ∧ clsOf minU v ≠ .zero) := by
+  have w := Within.snapshot minU r now
+  have hrank : ∀ c, 0 < c → rankOf num den c < c := by
+    intro c hc
+    unfold rankOf
+    have h1 : num * (c - 1) ≤ den * (c - 1) := Nat.mul_le_mul_right _ hnum
+    have h2 : num * (c - 1) / den ≤ c - 1 := by
+      apply Nat.div_le_of_le_mul
+      exact h1
+    omega
+  simp only [snapshotQuantile]
+  generalize hsk : snapshotSketch minU r now = sk at w
+  have hcount := w.count
+  have hrk : 0 < sk.count → rankOf num den sk.count < sk.count := hrank sk.count
+  generalize rankOf num den sk.count = rk at hrk ⊢
+  refine ⟨⟨?_, ?_⟩, ?_, ?_⟩
+  · intro h
+    unfold Sketch.atRank at h
+    by_cases h0 : sk.count = 0
+    · rw [h0] at hcount; exact List.length_eq_zero_iff.mp hcount.symm
+    · have hpos : 0 < sk.count := Nat.pos_of_ne_zero h0
+      have hr := hrk hpos
+      have hb : (sk.count == 0) = false := by simpa using h0
+      simp only [hb, Bool.false_eq_true, if_false] at h
+      split at h
+      · rename_i hlt
+        cases hs : storeAtRank (fun a b => b.le a) sk.neg (sk.neg.length - rk - 1) with
+        | some x => rw [hs] at h; cases h
+        | none =>
+          have := storeAtRank_none _ _ _ hs
+          rw [this] at hlt; simp at hlt
+      · split at h
+        · cases h
+        · rename_i h1 h2
+          cases hs : storeAtRank FV.le sk.pos (rk - sk.zero - sk.neg.length) with
+          | some x => rw [hs] at h; cases h
+          | none =>
+            have := storeAtRank_none _ _ _ hs
+            simp only [Sketch.count, this, List.length_nil] at hr
+            omega
+  · intro h
+    have : sk.count = 0 := by rw [hcount, h]; rfl
+    simp [Sketch.atRank, this]
+  · intro h
+    unfold Sketch.atRank at h
+    split at h
+    · cases h
+    · split at h
+      · cases hs : storeAtRank (fun a b => b.le a) sk.neg (sk.neg.length - rk - 1) with
+        | some x => rw [hs] at h; cases h
+        | none => rw [hs] at h; cases h
+      · split at h
+        · rename_i h1 h2
+          exact w.zero (by omega)
+        · cases hs : storeAtRank FV.le sk.pos (rk - sk.zero - sk.neg.length) with
+          | some x => rw [hs] at h; cases h
+          | none => rw [hs] at h; cases h
+  · intro v h
+    unfold Sketch.atRank at h
+    split at h
+    · cases h
+    · split at h
+      · cases hs : storeAtRank (fun a b => b.le a) sk.neg (sk.neg.length - rk - 1) with
+        | some x =>
+          rw [hs] at h; cases h
+          obtain ⟨a, b⟩ := w.neg _ (storeAtRank_mem _ _ _ _ hs)
+          exact ⟨a, by rw [b]; decide⟩
+        | none => rw [hs] at h; cases h
+      · split at h
+        · cases h
+        · cases hs : storeAtRank FV.le sk.pos (rk - sk.zero - sk.neg.length) with
+          | some x =>
+            rw [hs] at h; cases h
+            obtain ⟨a, b⟩ := w.pos _ (storeAtRank_mem _ _ _ _ hs)
+            exact ⟨a, by rw [b]; decide⟩
+          | none => rw [hs] at h; cases h
+
+/-- … and with the window theorem: under non-decreasing timestamps no sample that is older than the window (nor an
+    infinity) can be the one a quantile answers with -/
+theorem quantile_ignores_expired (minU n d : Nat) (hd : 1 ≤ d) (hn : 1 ≤ n) (adds : List (FV × Nat))
+    (hmono : adds.Pairwise (fun a b => a.2 ≤ b.2)) (now : Nat) (hnow : ∀ a ∈ adds, a.2 ≤ now)
+    (num den : Nat) (hnum : num ≤ den) (v : FV) :
+    let r := adds.foldl (fun r a => r.add keepFV a.1 a.2) (Rolling.new n d)
+    snapshotQuantile minU r now num den = .bin v →
+      ∃ t, (v, t) ∈ adds ∧ v.isInfinite = false ∧ now < t + d * n := by
+  intro r h
+  obtain ⟨S, hS, h1, _, _⟩ := window_sound_plain n d hd hn adds hmono now hnow
+  have hv := ((quantile_in_window minU r now num den hnum).2.2 v h).1
+  have hv' : v ∈ S.map Prod.fst := by rw [← hS]; exact hv
+  obtain ⟨⟨v', t⟩, hm, rfl⟩ := List.mem_map.mp hv'
+  obtain ⟨a, b, c⟩ := h1 _ hm
+  exact ⟨t, a, b, c⟩
+
+/-- the non-decreasing-timestamps hypothesis of `window_sound` is necessary for its second half, and the code is reached
+    with decreasing timestamps in ordinary use: `AtomicBucket::clear_with` hands the NEWEST block of 64 samples to
+    `record_samples` first, so a histogram that took more than one block between two upkeeps while the clock passed a
+    bucket boundary feeds `add` the newer samples before the older ones.  3 buckets of 10: the sample of t = 11 arrives
+    first, the one of t = 0 second; at now = 11 the latter is 11 old (window 30) but it is not in the snapshot — it found
+    no bucket and `now <= reftime` dropped it — while `count` still says 2.  (Replayed on the real recorder by the
+    corpus cases "multi-block drain".) -/
+theorem window_complete_needs_monotone :
+    let adds : List (FV × Nat) := [(.fin 2048, 11), (.fin 1024, 0)]
+    let r := adds.foldl (fun r a => r.add keepFV a.1 a.2) (Rolling.new 3 10)
+    ¬ adds.Pairwise (fun a b => a.2 ≤ b.2) ∧ (∀ a ∈ adds, a.2 ≤ 11) ∧ 11 + 10 < 0 + 10 * 3
+    ∧ r.snapshot 11 = [.fin 2048] ∧ r.count = 2 := by decide
+
+/-! ### the window a summary gets from the builder -/
+
+/-- **window_config**: the number of buckets and the bucket duration of a summary are resolved independently: a value that
+    was set is used as it is, whatever the other one is; one that was not set is the documented default (3 buckets,
+    20 s) — so `set_bucket_count` alone changes the count and `set_bucket_duration` alone the duration, and the window
+    length `RollingSummary::new` computes is their product. -/
+theorem window_config (count dur : Option Nat) :
+    (∀ c, count = some c → (windowOf count dur).1 = c)
+    ∧ (count = none → (windowOf count dur).1 = 3)
+    ∧ (∀ d, dur = some d → (windowOf count dur).2 = d)
+    ∧ (dur = none → (windowOf count dur).2 = 20000000000)
+    ∧ ((SummaryDist.new (windowOf count dur).1 (windowOf count dur).2).rolling.maxBucketDuration
+        = (windowOf count dur).2 * (windowOf count dur).1)
+    ∧ ((SummaryDist.new (windowOf count dur).1 (windowOf count dur).2).rolling.maxBuckets = (windowOf count dur).1) := by
+  refine ⟨?_, ?_, ?_, ?_, rfl, rfl⟩
+  · rintro c rfl; rfl
+  · rintro rfl; rfl
+  · rintro d rfl; cases count <;> rfl
+  · rintro rfl; cases count <;> rfl
+
+/-! ### source facts (regenerated from the repository on every run) -/
+
+/-- the defaults and the way `get_distribution` resolves the two options are the ones `windowOf` models; the builder
+    stores what it is given and hands the two options over in the parameter order of `DistributionBuilder::new`;
+    `RollingSummary::new` multiplies duration and count -/
+theorem src_window_defaults :
+    Generated.c15_default_bucket_count = toString defaultBucketCount
+    ∧ Generated.c15_default_bucket_duration = "from_secs(20)" ∧ defaultBucketDurationNs = 20 * 1000000000
+    ∧ Generated.c15_get_distribution_duration = "self.bucket_duration.map_or(DEFAULT_SUMMARY_BUCKET_DURATION, |d| d)"
+    ∧ Generated.c15_get_distribution_count = "self.bucket_count.map_or(DEFAULT_SUMMARY_BUCKET_COUNT, |c| c)"
+    ∧ Generated.c15_get_distribution_new_summary = "Distribution::new_summary(self.quantiles.clone(), b_duration, b_count)"
+    ∧ Generated.c15_new_summary_body = "Distribution::Summary(RollingSummary::new(bucket_count, bucket_duration), quantiles, 0.0)"
+    ∧ Generated.c15_rolling_new_max_duration = "bucket_duration * buckets.get()"
+    ∧ Generated.c15_rolling_new_max_buckets = "buckets.get() as usize"
+    ∧ Generated.c15_builder_hands_over
+        = "DistributionBuilder::new( self.quantiles, self.bucket_duration, self.buckets, self.bucket_count, self.bucket_overrides, )"
+    ∧ Generated.c15_set_bucket_duration_assign = "self.bucket_duration = Some(value)"
+    ∧ Generated.c15_set_bucket_count_assign = "self.bucket_count = Some(count)" := by decide
+
+/-- the sketch every summary bucket uses: relative error 1e-4, 32768 bins, zero class up to 1e-9 (the harness checks
+    quantiles at exactly these figures); `Summary::add` drops infinities and nothing else (`keepFV`).
+    `1e-9` in the units of the small-magnitude stream (2^-40) is 1099 (`clsOf 1099`). -/
+theorem src_sketch_parameters :
+    Generated.c15_summary_with_defaults = "Summary::new(0.0001, 32_768, 1.0e-9)"
+    ∧ Generated.c15_summary_new_config = "Config::new(alpha, max_buckets, min_value.abs())"
+    ∧ Generated.c15_summary_add_body = "{ if value.is_infinite() { return; } self.sketch.add(value); }"
+    ∧ (1099 * 10 ^ 9 ≤ 2 ^ 40 ∧ 2 ^ 40 < 1100 * 10 ^ 9) := by decide
+
+/-- `Matcher`'s variants are declared Full, Prefix, Suffix and the order is the derived one (`Matcher.lt`/`rank` of the
+    model: Full 0, Prefix 1, Suffix 2); the overrides are sorted by that order -/
+theorem src_matcher_order :
+    Generated.c15_matcher_variants = ["Full", "Prefix", "Suffix"]
+    ∧ Generated.c15_matcher_derive = "Clone, Debug, Eq, Hash, Ord, PartialEq, PartialOrd"
+    ∧ Generated.c15_overrides_sort = "matchers.sort_by(|a, b| a.0.cmp(&b.0))"
+    ∧ (Matcher.full []).rank = 0 ∧ (Matcher.pfx []).rank = 1 ∧ (Matcher.sfx []).rank = 2 := by decide
+
+/-- `Histogram::record` and `record_many` compare with `<=` only, branch on nothing else (in particular not on the number
+    of bounds), and add every sample to a sum of the type of `self.sum` (`let mut sum = 0.0` is an `f64` because it is
+    added to `self.sum: f64`); the summary arm adds every sample to the rolling summary and to `_sum` -/
+theorem src_histogram_statements :
+    Generated.c15_record_ifs = ["sample <= *bucket"]
+    ∧ Generated.c15_record_many_ifs = ["sample <= bucket", "bucketed.len() >= 2"]
+    ∧ Generated.c15_record_comparisons = ["sample <= *bucket"]
+    ∧ Generated.c15_record_many_comparisons = ["sample <= bucket"]
+    ∧ Generated.c15_record_sum_statements = ["self.sum += sample;"]
+    ∧ Generated.c15_record_many_sum_statements = ["let mut sum = 0.0;", "sum += *sample;", "self.sum += sum;"]
+    ∧ Generated.c15_record_samples_summary_arm = "{ for (sample, ts) in samples { hist.add(*sample, *ts); *sum += *sample; } }" := by
+  decide
+
 /-! ## non-vacuity -/
 
 -- (a) duplicates, ±∞ bounds; samples equal to bounds, NaN, ±∞; three batches incl. an empty one
@@ -486,5 +676,20 @@ example :
 
 -- a window that holds only an infinite sample prints 0 for every quantile, `_count` 1, `_sum` +Inf
 example : ((SummaryDist.new 3 20).recordSamples [(.pinf, 100)]).render 100 = (.zero, .pinf, 1) := by decide
+
+-- quantiles strictly inside (0,1): window {-3, nan, 0, 2, 5} (n/1024 units): ranks 0..4 answer -3, zero, zero, 2, 5
+example :
+    let r := [(FV.fin (-3), 1), (.nan, 2), (.fin 0, 11), (.fin 5, 12), (.fin 2, 13), (.pinf, 13)].foldl
+      (fun r (a : FV × Nat) => r.add keepFV a.1 a.2) (Rolling.new 2 10)
+    snapshotQuantile 0 r 13 1 4 = .zero ∧ snapshotQuantile 0 r 13 3 4 = .bin (.fin 2)
+    ∧ snapshotQuantile 0 r 13 1 100 = .bin (.fin (-3)) ∧ snapshotQuantile 0 r 13 99 100 = .bin (.fin 2)
+    ∧ snapshotQuantile 0 r 33 1 2 = .none
+    -- magnitudes up to min_possible are zeros: unit 2^-40, 1099 units ≤ 1e-9 < 1100 units
+    ∧ (bucketSketch 1099 [.fin 1099, .fin 1100, .fin (-1100), .fin (-5)]).atRank 1 = .zero
+    ∧ (bucketSketch 1099 [.fin 1099, .fin 1100, .fin (-1100), .fin (-5)]).atRank 3 = .bin (.fin 1100) := by decide
+
+-- only the count set / only the duration set / neither
+example : windowOf (some 5) none = (5, 20000000000) ∧ windowOf none (some 7) = (3, 7) ∧ windowOf none none = (3, 20000000000) := by
+  decide
 
 end MetricsVerif.C15
